@@ -505,7 +505,19 @@ func flexSelfArgCase(c *ev.Case) {
 		cp := cap(s.f.Values)
 		if rng.Chance(2, 3) {
 			s.note('P', a, b)
-			if !c.Guard("Prepend", func() { s.f.Prepend(s.f.Values[a:b]...) }) {
+			// the argument as a plain sub-slice, or with its capacity cut (three-index
+			// slice, slices.Clip): the same memory either way
+			arg := s.f.Values[a:b]
+			switch rng.Intn(3) {
+			case 1:
+				arg = s.f.Values[a:b:b]
+				c.Add("flex_selfarg_capacity_limited_arg", 1)
+			case 2:
+				if b < cap(s.f.Values) {
+					arg = s.f.Values[a : b : b+1]
+				}
+			}
+			if !c.Guard("Prepend", func() { s.f.Prepend(arg...) }) {
 				return
 			}
 			old := s.m
@@ -523,7 +535,11 @@ func flexSelfArgCase(c *ev.Case) {
 			}
 		} else {
 			s.note('A', a, b)
-			if !c.Guard("Append", func() { s.f.Append(s.f.Values[a:b]...) }) {
+			arg := s.f.Values[a:b]
+			if rng.Bool() {
+				arg = s.f.Values[a:b:b]
+			}
+			if !c.Guard("Append", func() { s.f.Append(arg...) }) {
 				return
 			}
 			old := s.m
